@@ -212,8 +212,19 @@ def cmd15 (ts : List String) : String :=
     | _ => "bad-args"
   | _ => "bad-args"
 
+def showConvs (name : String) (l : List (String × Conv)) : String :=
+  name ++ " " ++ " ".intercalate (l.map fun kv => kv.1 ++ "=" ++ kv.2.code)
+
+/-- the conversion tags of the model, for comparison with the harness' own tables and with the behaviour of the code -/
+def cmdTags : String :=
+  "|".intercalate [showConvs "adf21" (convs2x .adf21), showConvs "bmp" (convs2x .bmp), showConvs "bme" (convs2x .bme),
+    showConvs "adf12" convs12, showConvs "adf11parsed" convs11parsed, showConvs "adf11installed" convs11installed,
+    showConvs "adf15" convs15,
+    "charge " ++ " ".intercalate ([Class11.scd, .acd, .ccd, .plt, .prb, .prc].map fun c => c.code ++ "=" ++ toString c.chargeCorrection)]
+
 def step (ts : List String) : String :=
   match ts with
+  | ["tags"] => cmdTags
   | "adf2x" :: r => cmd2x r
   | "adf15" :: r => cmd15 r
   | "adf12" :: r => cmd12 r
